@@ -141,3 +141,32 @@ Fixpoint integrity (fuel : nat) (bs : bytes) (count : N) : N * bool :=
     end
   end.
 Definition integrity_b (bs : bytes) : N * bool := integrity (S (length bs)) bs 0.
+
+(* ---- segmentation only (no CRC, no data-size-zero rule): what C16 compares the raw decoder with *)
+Definition segment_sequence (bs : bytes) : option (list segment * bytes) :=
+  match bs with
+  | hs :: _ =>
+    if negb ((hs =? 12) || (hs =? 14)) then None else
+    if len bs <? hs then None else
+    let h := take hs bs in
+    if negb (beq (take 4 (drop 8 h)) fit_tag) then None else
+    match parse_records (S (length bs)) (repeat 0 16) (drop hs bs) (le32 (take 4 (drop 4 h))) with
+    | None => None
+    | Some (segs, rest) =>
+      match rest with
+      | c0 :: c1 :: rest' => Some ((SHeader, h) :: segs ++ [(SCrc, [c0; c1])], rest')
+      | _ => None
+      end
+    end
+  | [] => None
+  end.
+Fixpoint segment_stream (fuel : nat) (bs : bytes) (acc : list segment) : option (list segment) :=
+  match fuel with
+  | O => None
+  | S f =>
+    match segment_sequence bs with
+    | None => None
+    | Some (segs, rest) => match rest with [] => Some (acc ++ segs) | _ => segment_stream f rest (acc ++ segs) end
+    end
+  end.
+Definition segment_stream_b (bs : bytes) : option (list segment) := segment_stream (S (length bs)) bs [].
